@@ -709,11 +709,12 @@ class Gen:
                 items.append(r.pick(["i3", "f6.2", "a"]))
         # join: commas optional around '/' and ':' and after kP
         out = items[0]
+        opt = "{,}"
         for prev, it in zip(items, items[1:]):
             if prev in ("/", ":") or it in ("/", ":"):
-                out += "{,}" + it
+                out += (", " if self.avoid("no_format_comma_omitted") else opt) + it
             elif re.fullmatch(r"[-+]?\d+[pP]", prev) and re.match(r"\d*(?:[fFdDgG]|[eE][nNsS]?)\d", it):
-                out += "{,}" + it
+                out += (", " if self.avoid("no_format_comma_omitted") else opt) + it
             else:
                 out += ", " + it
         return out
@@ -832,8 +833,12 @@ class Gen:
             nm = self.name(SUB_NAMES)
             if r.chance(8) and "new_target" in ctx:
                 args.append("*%s" % ctx["new_target"]())         # alt-return-spec (R1222)
-            if r.chance(15):
-                nm = "%s%%%s" % (self.name(OBJ_NAMES), r.pick(["m", "run"]))
+            if r.chance(20):
+                # procedure designator through a component, possibly of an array element (R1219)
+                nm = r.pick(["%s%%%s" % (self.name(OBJ_NAMES), r.pick(["m", "run"])),
+                             "%s(%s)%%%s" % (self.name(OBJ_NAMES), self.int_expr(1), r.pick(["m", "run"])),
+                             "%s%%%s(%s, %s)%%%s" % (self.name(OBJ_NAMES), self.name(COMP_NAMES), self.int_expr(1),
+                                                    self.name(INT_NAMES), r.pick(["m", "run"]))])
             if not args:
                 return S("call %s{-()}" % nm, "call", removable=True)
             return S("call %s(%s)" % (nm, ", ".join(args)), "call", removable=True)
